@@ -13,6 +13,7 @@ from __future__ import annotations
 
 import itertools
 import random
+import re
 
 from .. import bibtok, core, docgen, splitobs
 from . import c06, c11
@@ -41,6 +42,28 @@ def refdoc(rnd):
     return d.text
 
 
+# fixed witnesses (always part of the run): entry types whose lower-casing is not the identity on word characters
+WITNESSES = ["@\u0130x{k, a = {b}}\n", "% c\n@A\u0130{k1, title = \"t\"}\n\n@book{k2, a = 1}\n"]
+_DOTTED_I = re.compile(r"@\w*\u0130\w*[ \t]*\{")
+
+
+def dotted_i_signature(text, case):
+    """Known finding C05-entry-type-with-dotted-capital-i: matched only when (a) the document has an entry whose type
+    holds U+0130 and (b) the first difference between the two parses is exactly that entry turning into comment text."""
+    if not _DOTTED_I.search(text):
+        return None
+    l1, l2 = case["lib1"], case["lib2"]
+    for i, b in enumerate(l1):
+        if i >= len(l2) or l2[i] != b:
+            if b.get("t") == "entry" and "\u0307" in b.get("type", ""):
+                return {"id": "C05-entry-type-with-dotted-capital-i"}
+            # the entry may have been swallowed by the comment that precedes it
+            if b.get("t") == "icomment" and i + 1 < len(l1) and l1[i + 1].get("t") == "entry" and "\u0307" in l1[i + 1].get("type", ""):
+                return {"id": "C05-entry-type-with-dotted-capital-i"}
+            return None
+    return None
+
+
 def run(chk: core.Check):
     bib = core.import_repo()
     rnd = random.Random(chk.seed + 5)
@@ -57,6 +80,7 @@ def run(chk: core.Check):
     texts = [d.text for d in docgen.constructive(ncons)]
     texts += [docgen.random_doc(rnd, rnd.randint(1, 8)).text for _ in range(ndoc)]
     texts += [refdoc(rnd) for _ in range(ndoc)]
+    texts += WITNESSES
     recs, tlcs = splitobs.evaluate(bib, texts, how="parse0", lib=True, grammar=True)
     for r in tlcs:
         chk.add_tlc(r, "Oracle_Splitter (original documents: Recognise, Parsed)", count_states=False)
@@ -110,7 +134,7 @@ def run(chk: core.Check):
             obs = c06.first_diff(c["s2"], c["s1"])
         chk.mismatch(rj["clause"], {"kind": "docfmt", "text": text, "fmt": f}, obs,
                      "content of the second parse = content of the first; second output = first output byte for byte",
-                     spec={"module": "Trace_Pipeline"}, kind="docfmt")
+                     signature=dotted_i_signature(text, c), spec={"module": "Trace_Pipeline"}, kind="docfmt")
     chk.extra["written_text_differs_from_Writer_spec_but_C05_holds"] = notes
     chk.traces += len(cases) - len(verdict.rejects) + notes
     chk.evaluations += len(cases)
